@@ -224,29 +224,6 @@ fn c02_split_view_mt_n3() {
 }
 
 // ------------------------------------------------------------------ owned and view forms agree
-// (both forms are also pinned to the same oracle above; this unit compares them directly on the same input.
-//  Unweighted because of the cost note above; the weights of both forms are pinned separately.)
-
-// @unit class=bounded tier=thorough mem=heavy bound="n=2,p=2,single target,names,unweighted,ratio symbolic f32 in [0,1]" timeout=1800 fns=linfa::dataset::Dataset::split_with_ratio,linfa::dataset::DatasetBase::split_with_ratio
-#[kani::proof]
-#[kani::unwind(4)]
-#[kani::stub(alloc::fmt::format, fmt_stub)]
-fn c02_split_forms_agree_n2() {
-    let ratio = c02_any_ratio();
-    let ds = c02_ds1(2, 2, false, true);
-    let v = ds.view();
-    let (v1, v2) = v.split_with_ratio(ratio);
-    let (o1, o2) = c02_ds1(2, 2, false, true).split_with_ratio(ratio);
-    assert!(o1.records.dim() == v1.records.dim() && o2.records.dim() == v2.records.dim());
-    assert!(o1.targets.len() == v1.targets.len() && o2.targets.len() == v2.targets.len());
-    for (o, w) in [(&o1, &v1), (&o2, &v2)] {
-        for j in 0..o.nsamples() {
-            assert!(o.records[(j, 0)] == w.records[(j, 0)] && o.records[(j, 1)] == w.records[(j, 1)] && o.targets[j] == w.targets[j]);
-        }
-        assert!(o.weights.len() == w.weights.len());
-        assert!(o.feature_names() == w.feature_names() && o.target_names() == w.target_names());
-    }
-    kani::cover!(o1.nsamples() == 1);
-    kani::cover!(o1.nsamples() == 0);
-    kani::cover!(o2.nsamples() == 0);
-}
+// Not a unit of its own: a harness that runs both forms on the same symbolic ratio exceeds 14 GB even at n=2, p=1
+// without weights and names (measured twice).  Agreement follows from the units above: both forms are pinned to
+// the same oracle (same identity-tagged dataset, same ratio => same n1, same rows, targets, weights and names).
